@@ -37,6 +37,7 @@ Definition res_eqb (a b : res bytes) : bool :=
   match a, b with
   | Ok x, Ok y => bytes_eqb x y
   | ENotFound, ENotFound => true | ETypeError, ETypeError => true | EFuel, EFuel => true
+  | EBroken a, EBroken b => N.eqb a b
   | _, _ => false
   end.
 Fixpoint list_eqb {A} (f : A -> A -> bool) (l1 l2 : list A) : bool :=
@@ -116,7 +117,9 @@ Definition dec_item (x : sx) : option item :=
   end.
 Definition dec_content (x : sx) : option content :=
   match x with
-  | L [its; B e] => obind (asListOf dec_item its) (fun its => Some {| items := its; export := e |})
+  | L [its; B e] => obind (asListOf dec_item its) (fun its => Some {| items := its; export := e; broken := 0 |})
+  | L [its; B e; k] => obind (asListOf dec_item its) (fun its => obind (asN k) (fun k =>
+                       Some {| items := its; export := e; broken := k |}))
   | _ => None
   end.
 Definition dec_step (x : sx) : option step :=
@@ -139,6 +142,7 @@ Definition dec_cfg (x : sx) : option config :=
 Definition dec_res (x : sx) : option (res bytes) :=
   match x with
   | L [I 0%Z; B s] => Some (Ok s) | L [I 1%Z] => Some ENotFound | L [I 2%Z] => Some ETypeError | L [I 3%Z] => Some EFuel
+  | L [I 4%Z; k] => obind (asN k) (fun k => Some (EBroken k))
   | _ => None
   end.
 Definition dec_obs (x : sx) : option obs :=
@@ -163,7 +167,8 @@ Definition decode (x : sx) : option (case * obs) :=
   end.
 
 Definition enc_res (r : res bytes) : sx :=
-  match r with Ok s => L [I 0%Z; B s] | ENotFound => L [I 1%Z] | ETypeError => L [I 2%Z] | EFuel => L [I 3%Z] end.
+  match r with Ok s => L [I 0%Z; B s] | ENotFound => L [I 1%Z] | ETypeError => L [I 2%Z] | EFuel => L [I 3%Z]
+  | EBroken k => L [I 4%Z; sxN k] end.
 Definition enc_obs (o : obs) : sx :=
   match o with
   | OEngine rs => L [I 0%Z; L (map enc_res rs)]
